@@ -36,9 +36,9 @@ ErrBad(v, e) ==
    ELSE IF ~Exists(v, e.ptr) THEN {"pointer_in_data"}
         ELSE IF "val" \in DOMAIN e /\ ~Eq(At(v, e.ptr), e.val) THEN {"quoted_value"} ELSE {}
 
-Errs(r) == (IF "de" \in DOMAIN r THEN {<<"default", i>> : i \in DOMAIN r.de} ELSE {})
-           \cup (IF "me" \in DOMAIN r THEN {<<"multi", i>> : i \in DOMAIN r.me} ELSE {})
-ErrAt(r, x) == IF x[1] = "default" THEN r.de[x[2]] ELSE r.me[x[2]]
+ErrKeys == {"de", "me", "qde", "qme", "pde", "pme"}      \* default / multi-error mode; the same read as a request, as a response
+Errs(r) == UNION {IF k \in DOMAIN r THEN {<<k, i>> : i \in DOMAIN r[k]} ELSE {} : k \in ErrKeys}
+ErrAt(r, x) == r[x[1]][x[2]]
 
 FailedAt(v, r) ==
    (IF Cardinality(Verdicts(r)) # 1 \/ "P" \in Verdicts(r) THEN {"same_verdict"} ELSE {})
